@@ -517,6 +517,11 @@ func VerifyFunc(prog *Program, smt *SMT, eff *Effects, key string, fc *FuncContr
 	if fc != nil && fc.Arith == "wrap" {
 		fv.wrap = true
 	}
+	if fc != nil && fc.Arith == "math" {
+		// counters bounded by memory (list length, tree depth): treated as mathematical integers
+		fv.mathInts = true
+		fv.tag("arith-math: integer counters of " + key + " cannot overflow (bounded by the number of heap objects)")
+	}
 	if fc != nil && fc.PanicFree {
 		fv.noF2I = true
 	}
@@ -565,6 +570,11 @@ func VerifyFunc(prog *Program, smt *SMT, eff *Effects, key string, fc *FuncContr
 		for _, cl := range fc.Requires {
 			g := fv.evalClauseEntry(st, cl)
 			st.assume(fv.name("req", g, "Bool"))
+		}
+		for _, cl := range fc.Assumes {
+			g := fv.evalClauseEntry(st, cl)
+			st.assume(fv.name("asm", g, "Bool"))
+			fv.tag("assumed-precondition (not checked at call sites) " + key + ": " + cl.Text)
 		}
 	}
 	fv.entry = st.clone()
